@@ -228,7 +228,7 @@ def gen(ctx):
                 addr = rng.choice([4, 8])
                 hdr = gen_header(rng, version, is64, addr, lsrefs, srefs)
                 prog = gen_prog(rng, hdr[4], addr, rng.choice([0, 1, 5, 20, rng.randint(0, 60)]),
-                                allow_define_file=version < 5)
+                                allow_define_file=version < 5 and kind == 'unit')
                 units.append([hdr, prog, _garbage(rng, rng.choice([0, 0, 1, 13]))])
             lookups = None
             if kind == 'cu':
@@ -264,13 +264,27 @@ def _fe(e):
     return [_dv(e.name), _dv(e.get('dir_index')), _dv(e.get('mtime')), _dv(e.get('length'))]
 
 
+_MEMO = {}
+
+
 def _decoded(lp, stream_len):
-    """rows, file entries appended, end - final offset"""
+    """rows, file entries appended, end - final offset.  get_entries() is memoised by the library and the
+    program object is shared through DWARFInfo._linetable_cache, so a repeated lookup reports the first
+    observation (the growth of header.file_entry across calls is property C10's subject)."""
+    if lp._decoded_entries is not None and id(lp) in _MEMO and _MEMO[id(lp)][0] is lp:
+        return _MEMO[id(lp)][1]
+    r = _decoded1(lp, stream_len)
+    _MEMO[id(lp)] = (lp, r)
+    return r
+
+
+def _decoded1(lp, stream_len):
     before = len(lp.header['file_entry']) if lp.header.get('file_entry') is not None else 0
     entries = lp.get_entries()
     rows = [_row(e.state) for e in entries if e.state is not None]
     fe = lp.header.get('file_entry')
-    added = [_fe(e) for e in list(fe)[before:]] if fe is not None else []
+    # a DW_LNE_define_file with an empty name (out of domain) has no further fields: the model reports 0
+    added = [[b'', 0, 0, 0] if not e.name else _fe(e) for e in list(fe)[before:]] if fe is not None else []
     return ['ok', [rows, added, lp.program_end_offset - lp.stream.tell()]]
 
 
@@ -428,6 +442,7 @@ def evaluate(ctx, cases):
     ans3 = dict(zip(tags3, drv.batch(req3)))
 
     # pass 4: the implementation
+    _MEMO.clear()
     for ci, (kind, a) in enumerate(cases):
         ctx.bump('kind', kind)
         if kind in ('prog', 'raw'):
